@@ -68,7 +68,7 @@ theorem qln_step (E : Env S) (n : Nat) (ih : RQN E n) (ihP : RQP E n) : QLN E (n
       · next ps hps =>
         cases h
         have hbk : s.bankAt nt ci = ps := by simp [St.bankAt, hps]
-        exact key0 false ps ⟨fun p hp => (by rw [hbk]; exact hp), hbk ▸ hn.k4 nt ci⟩ rfl
+        exact key0 _ ps ⟨fun p hp => (by rw [hbk]; exact hp), hbk ▸ hn.k4 nt ci⟩ rfl
       · next hbank =>
         split at h
         · cases h
